@@ -2,7 +2,7 @@
 
 # K harness sets.  q_* = quick tier, t_* = thorough tier (thorough runs both).
 SUB_Q = ['q_sub_lru_mru_ptr', 'q_sub_insert_set_head', 'q_sub_touch_ptr', 'q_sub_touch_ptr_only', 'q_sub_remove_entry',
-         'q_sub_get_from_table', 'q_sub_realloc_grow', 'q_sub_realloc_shrink', 'q_sub_realloc_fail', 'q_sub_new_seal', 'q_sub_builder', 'q_sub_insert_untracked']
+         'q_sub_get_from_table', 'q_sub_realloc_grow', 'q_sub_realloc_shrink', 'q_sub_realloc_fail', 'q_sub_new_seal', 'q_sub_builder', 'q_sub_insert_untracked', 'q_sub_small_insert', 'q_sub_small_remove', 'q_sub_small_realloc']
 SUB_T = ['t_sub_lru_mru_ptr', 't_sub_insert_set_head', 't_sub_touch_ptr', 't_sub_remove_entry', 't_sub_get_from_table',
          't_sub_realloc', 't_sub_realloc_fail']
 
